@@ -87,6 +87,7 @@ class Sim:
         self.sent_blocks: set[int] = set()
         self.calls: list[str] = []   # human readable replay
         self.internal_error: tuple[str, str] | None = None
+        self.unitary_bad: tuple[str, str] | None = None
 
     # ------------------------------------------------------------ rendering
     def block_gid(self, gate) -> int:
@@ -249,6 +250,30 @@ class Sim:
         return sub
 
 
+def unitary_or_none(c):
+    """the circuit's unitary when it is small and has no placeholders"""
+    try:
+        dim = 1
+        for r in c.radixes:
+            dim *= r
+        if dim > 64:
+            return None
+        for g in c.gate_set:
+            if 'barrier' in g.name.lower():
+                return None
+        return np.array(c.get_unitary())
+    except Exception:
+        return None
+
+
+def phase_equal(a, b, tol=1e-8):
+    if a is None or b is None or a.shape != b.shape:
+        return True
+    t = np.trace(a.conj().T @ b)
+    return abs(abs(t) - a.shape[0]) < tol * a.shape[0] + 1e-9 and \
+        np.allclose(a * (t / abs(t)), b, atol=1e-7)
+
+
 ERR = {IndexError: 'err index', ValueError: 'err value', TypeError: 'err type'}
 INTERNAL = (KeyError, AssertionError, AttributeError, RuntimeError,
             ZeroDivisionError, RecursionError, UnboundLocalError, NameError)
@@ -326,11 +351,18 @@ def run_history(alpha: Alphabet, seed: int, length: int, kinds=None) -> Sim:
     names = list(weights)
     ws = [weights[k] for k in names]
 
+    STRUCT = ('compress', 'unfold', 'unfold_all', 'restore', 'save')
+
     def attempt(line, call, fn, on_ok=lambda r: 'ok'):
         nonlocal c
+        k0 = line.split(' ', 1)[0]
+        u0 = unitary_or_none(c) if k0 in STRUCT and k0 != 'restore' else None
         try:
             r = fn()
             ret = on_ok(r)
+            if u0 is not None and not phase_equal(u0, unitary_or_none(c)):
+                sim.unitary_bad = (call, 'unitary changed by a '
+                                   'structure-only call')
         except tuple(ERR) as e:
             ret = ERR[type(e)]
         except INTERNAL as e:
@@ -596,6 +628,7 @@ def run_history(alpha: Alphabet, seed: int, length: int, kinds=None) -> Sim:
                 continue
             before = sim.circ_text(c)
             regt = ' '.join(f'{q} {lo} {hi}' for q, (lo, hi) in reg.items())
+            u0 = unitary_or_none(c)
             try:
                 if kind == 'fold':
                     pt = c.fold(reg)
@@ -606,6 +639,10 @@ def run_history(alpha: Alphabet, seed: int, length: int, kinds=None) -> Sim:
                 else:
                     _, net, _ = c.straighten(reg)
                     line = f'straighten {net} => ' + sim.circ_text(c)
+                if u0 is not None and not phase_equal(u0, unitary_or_none(c)):
+                    sim.unitary_bad = (f'{kind}({reg}) on {before}',
+                                       'unitary changed by a structure-only '
+                                       'call')
                 sim.record(line, 'ok-rel', c, f'{kind}({reg})')
             except ValueError:
                 sim.record(f'unchanged {sim.circ_text(c)}', 'ok', c,
@@ -691,8 +728,9 @@ def worker(args):
         try:
             sim = run_history(alpha, seed_of(base, i), length, kinds)
             out.append((i, sim.lines, sim.impl, sim.calls,
-                        sim.internal_error))
+                        sim.internal_error, sim.unitary_bad))
         except Exception as e:  # harness bug: surface it
             out.append((i, None, None, None,
-                        ('HARNESS', repr(e) + traceback.format_exc()[-2000:])))
+                        ('HARNESS', repr(e) + traceback.format_exc()[-2000:]),
+                        None))
     return out
